@@ -11,7 +11,7 @@ import (
 
 func init() {
 	register("C17", propMeta{
-		Explanation: "E-GUARD + E-PAIR + E-CHAN + E-PROV on common/turbotunnel. O-1 errors only after close: in RedialPacketConn.ReadFrom/WriteTo every return with a non-nil error is reachable only through a '<-closed' select case; closed is closed only in closeWithError, called only from Close and from the err != nil edge of dialContext. O-2 one carrier at a time, each closed: in dialLoop a carrier obtained on the err == nil edge reaches conn.Close() on every path before the next dial or a return; exchange is called synchronously. O-3 no goroutine outlives its carrier: in every goroutine literal of the package each blocking select has a case on the connection's closed channel, and each unconditional send goes to a channel made by the enclosing call whose constant capacity covers the sends the goroutine can perform before returning. O-4 copy-on-enqueue, never block: every send on a packet queue is inside a select with default and sends a slice made by this invocation, filled by copy from the caller's buffer, of the caller's length; no []byte parameter flows into a send, a struct field or a global; both ReadFrom methods return copy(p, queued). O-5 close-once and publication order: close(closed) only inside closeOnce.Do and after err.Store. O-6 closed means failed: ReadFrom/WriteTo/QueueIncoming test closed (polling) before touching a queue. O-7 expiry shape: removeExpired pops only while now.Sub(oldest.LastSeen) >= timeout with the unscaled timeout; Less orders by LastSeen.Before; the sweeper sleeps timeout/2 and passes the same timeout; SendQueue refreshes LastSeen before heap.Fix/heap.Push; Pop closes the removed queue. Each clause is necessary: e.g. an unbuffered error channel retains one goroutine and carrier per redial. Added after the second seeding round: O-7 also requires that Push/Pop/Swap of clientMapInner have no static caller outside the interface methods (container/heap only); named methods started with go count as goroutine bodies when that go statement is their only use. Added after the third seeding round: the writer goroutine of exchange signals its end on every return (close or send on writeErrCh); the sweeper reads the clock after its sleep; the expiry function is identified by shape if renamed. Added after the fourth seeding round: O-8/C05 the client-map index obligations (Swap, Push, Pop, SendQueue keep byAddr equal to the heap position; no stale index after heap.Fix); the queue of a removed record may be closed by Pop or by every caller of heap.Pop/heap.Remove. Added after the fifth seeding round: O-5b a channel that is both closed and sent on has one mutex held at the close and at every send (D23: the send queue of an expiring client); a deferred Close inside the redial loop does not count as closing the carrier before the next dial; the clock that stamps LastSeen is read with the map lock held. Added after the sixth seeding round and the mutation audit: O-10 E-CLEANUP on turbotunnel, server/lib and websocketconn; O-11 one far-end address across carriers; O-11/C20 the guarded-by rows of the client map.",
+		Explanation: "E-GUARD + E-PAIR + E-CHAN + E-PROV on common/turbotunnel. O-1 errors only after close: in RedialPacketConn.ReadFrom/WriteTo every return with a non-nil error is reachable only through a '<-closed' select case; closed is closed only in closeWithError, called only from Close and from the err != nil edge of dialContext. O-2 one carrier at a time, each closed: in dialLoop a carrier obtained on the err == nil edge reaches conn.Close() on every path before the next dial or a return; exchange is called synchronously. O-3 no goroutine outlives its carrier: in every goroutine literal of the package each blocking select has a case on the connection's closed channel, and each unconditional send goes to a channel made by the enclosing call whose constant capacity covers the sends the goroutine can perform before returning. O-4 copy-on-enqueue, never block: every send on a packet queue is inside a select with default and sends a slice made by this invocation, filled by copy from the caller's buffer, of the caller's length; no []byte parameter flows into a send, a struct field or a global; both ReadFrom methods return copy(p, queued). O-5 close-once and publication order: close(closed) only inside closeOnce.Do and after err.Store. O-6 closed means failed: ReadFrom/WriteTo/QueueIncoming test closed (polling) before touching a queue. O-7 expiry shape: removeExpired pops only while now.Sub(oldest.LastSeen) >= timeout with the unscaled timeout; Less orders by LastSeen.Before; the sweeper sleeps timeout/2 and passes the same timeout; SendQueue refreshes LastSeen before heap.Fix/heap.Push; Pop closes the removed queue. Each clause is necessary: e.g. an unbuffered error channel retains one goroutine and carrier per redial. Added after the second seeding round: O-7 also requires that Push/Pop/Swap of clientMapInner have no static caller outside the interface methods (container/heap only); named methods started with go count as goroutine bodies when that go statement is their only use. Added after the third seeding round: the writer goroutine of exchange signals its end on every return (close or send on writeErrCh); the sweeper reads the clock after its sleep; the expiry function is identified by shape if renamed. Added after the fourth seeding round: O-8/C05 the client-map index obligations (Swap, Push, Pop, SendQueue keep byAddr equal to the heap position; no stale index after heap.Fix); the queue of a removed record may be closed by Pop or by every caller of heap.Pop/heap.Remove. Added after the fifth seeding round: O-5b a channel that is both closed and sent on has one mutex held at the close and at every send (D23: the send queue of an expiring client); a deferred Close inside the redial loop does not count as closing the carrier before the next dial; the clock that stamps LastSeen is read with the map lock held. Added after the sixth seeding round and the mutation audit: O-10 E-CLEANUP on turbotunnel, server/lib and websocketconn; O-11 one far-end address across carriers; O-11/C20 the guarded-by rows of the client map. O-7 a LastSeen store precedes heap.Fix and heap.Push on every path; O-12/C20 lock pairing; O-13/O-13b failure branches in turbotunnel (strict) and server/lib.",
 		NotDecided:  "FIFO order of Go channels (language guarantee), actual timing of the sweeper, KCP behaviour above the adapters.",
 		Assumptions: []string{"conn.Close() unblocks a carrier's pending ReadFrom/WriteTo (net.PacketConn contract)", "Go channel semantics"},
 	}, runC17)
@@ -27,6 +27,12 @@ func runC17(c *Ctx) {
 	// ---------- O-10: a failed step releases what the earlier steps created (no leaked conns/goroutines) ----------
 	c.checkCleanupOnErrorPaths("O-10 failure returns release what was created", append(append(append([]*ssa.Function{}, tt...), p.FnsIn("server/lib")...), p.FnsIn("common/websocketconn")...))
 
+	c.checkErrorBranchesLeave("O-13 a failed step ends the function", tt)
+	c.checkErrorBranchesLeaveMode("O-13b a failed step is not carried on with", p.FnsIn("server/lib"), true)
+	// a mutex of the adapters left locked stops every carrier (C20's pairing rule)
+	c.prefix = "O-12/C20:"
+	c.checkLockPairing("O-2 lock pairing", append(append([]*ssa.Function{}, tt...), p.FnsIn("server/lib")...))
+	c.prefix = ""
 	// the client map's index and heap are rewritten by every lookup: only under the map's mutex (C20's rows)
 	{
 		var rows []guardRow
